@@ -166,23 +166,35 @@ theorem override_independent (P P' : Params K) (lib : Lib K)
     intro x _
     simp only [Function.comp, mkEntry, applyOv, he]
 
-/-- Floor height 0 passes the `flr_h` setter (`float_positive` is `0 ≤ v`) and makes
-    `_compute_BEM` divide by zero: the run stops with `ZeroDivisionError` before anything is
-    selected. (Fail-stop, recorded; every other accepted override value is covered by T1.) -/
-theorem flrh_zero_refused [LinearOrder K] (P : Params K) (lib : Lib K) (h0 : P.flrh = some 0) :
-    ovSetterPos P.flrh = .ok P.flrh ∧ computeBEM P lib = .error .zerodiv := by
-  constructor
-  · rw [h0]; simp [ovSetterPos]
-  · unfold computeBEM hFloor; rw [h0]; simp
+/-- Floor height 0 is **rejected by the `flr_h` setter** (`float_in_range_excl(v, 0)`: strictly
+    positive). The division by the floor height in `_compute_BEM` still raises `ZeroDivisionError`
+    for 0 (second conjunct, kept in the model), but that path is unreachable through the setter:
+    every accepted floor height makes `hFloor` non-zero (third conjunct). -/
+theorem flrh_zero_refused [LinearOrder K] [IsStrictOrderedRing K] (P : Params K) (lib : Lib K) :
+    ovSetterPos (some (0 : K)) = .error .assert ∧
+    (P.flrh = some 0 → computeBEM P lib = .error .zerodiv) ∧
+    (ovSetterPos P.flrh = .ok P.flrh → hFloor P ≠ 0) := by
+  refine ⟨by simp [ovSetterPos], ?_, ?_⟩
+  · intro h0; unfold computeBEM hFloor; rw [h0]; simp
+  · intro hacc
+    unfold hFloor
+    cases hf : P.flrh with
+    | none => simp only; norm_num
+    | some v =>
+      rw [hf] at hacc
+      simp only [ovSetterPos] at hacc
+      split at hacc
+      · rename_i hv; exact ne_of_gt hv
+      · cases hacc
 
-/-- The accepted values of the six setters: `None`, or any `v` with `0 ≤ v ≤ 1` (floor height:
-    `0 ≤ v`); the boundary values 0 and 1 are accepted. -/
+/-- The accepted values of the six setters: `None`, or any `v` with `0 ≤ v ≤ 1` — the boundary
+    values 0 and 1 included — for the five ratios; `None` or any `v > 0` for the floor height. -/
 theorem setters_accept [LinearOrder K] [IsStrictOrderedRing K] :
     ovSetter01 (none : Option K) = .ok none ∧ ovSetter01 (some (0 : K)) = .ok (some 0) ∧
-    ovSetter01 (some (1 : K)) = .ok (some 1) ∧ ovSetterPos (some (0 : K)) = .ok (some 0) ∧
+    ovSetter01 (some (1 : K)) = .ok (some 1) ∧ ovSetterPos (none : Option K) = .ok none ∧
     (∀ v : K, (∃ o, ovSetter01 (some v) = .ok o) ↔ 0 ≤ v ∧ v ≤ 1) ∧
-    (∀ v : K, (∃ o, ovSetterPos (some v) = .ok o) ↔ 0 ≤ v) := by
-  refine ⟨rfl, by simp [ovSetter01], by simp [ovSetter01], by simp [ovSetterPos], ?_, ?_⟩
+    (∀ v : K, (∃ o, ovSetterPos (some v) = .ok o) ↔ 0 < v) := by
+  refine ⟨rfl, by simp [ovSetter01], by simp [ovSetter01], rfl, ?_, ?_⟩
   · intro v; unfold ovSetter01; simp only
     constructor
     · rintro ⟨o, ho⟩; split at ho
